@@ -757,3 +757,466 @@ Section Flip.
       apply in_map_iff. exists (sr, d). split; [reflexivity|]. apply flip_pairs_symmetric. exact Hin.
   Qed.
 End Flip.
+
+(* ================================================================== permute_dims *)
+(* ---- mixed-radix numerals: L a = stride of axis a, dd a = its extent ---- *)
+Fixpoint sumf (f : nat -> nat) (k : nat) : nat :=
+  match k with 0 => 0 | S k' => f k' + sumf f k' end.
+
+Lemma sumf_ext f g k : (forall a, a < k -> f a = g a) -> sumf f k = sumf g k.
+Proof.
+  induction k as [|k IH]; intro H; cbn [sumf]; [reflexivity|].
+  rewrite (H k) by lia. rewrite IH by (intros; apply H; lia). reflexivity.
+Qed.
+
+Lemma sumf_list_sum f k : sumf f k = list_sum (map f (seq 0 k)).
+Proof.
+  induction k as [|k IH]; [reflexivity|]. rewrite seq_S, map_app, list_sum_app. rewrite Nat.add_0_l. cbn [sumf map].
+  change (list_sum [f k]) with (f k + 0). rewrite IH. lia.
+Qed.
+
+Lemma list_sum_perm l l' : Permutation l l' -> list_sum l = list_sum l'.
+Proof.
+  induction 1 as [|x l l' _ IH|x y l|l l' l'' _ IH1 _ IH2].
+  - reflexivity.
+  - change (x + list_sum l = x + list_sum l'). lia.
+  - change (y + (x + list_sum l) = x + (y + list_sum l)). lia.
+  - lia.
+Qed.
+
+Lemma map_nth_seq (l : list nat) : l = map (fun b => nth b l 0) (seq 0 (length l)).
+Proof.
+  apply (nth_ext _ _ 0 0).
+  - rewrite map_length, seq_length. reflexivity.
+  - intros q Hq. rewrite (nth_indep (map _ _) 0 ((fun b => nth b l 0) 0)) by (rewrite map_length, seq_length; exact Hq).
+    rewrite (map_nth (fun b => nth b l 0) (seq 0 (length l)) 0 q). rewrite seq_nth by exact Hq. reflexivity.
+Qed.
+
+(* reindexing a sum along a permutation of 0..k-1 *)
+Lemma sumf_reindex (perm : list nat) k g : length perm = k -> Permutation perm (seq 0 k) ->
+  sumf g k = sumf (fun b => g (nth b perm 0)) k.
+Proof.
+  intros Hl Hp. rewrite !sumf_list_sum.
+  rewrite <- (list_sum_perm _ _ (Permutation_map g Hp)).
+  rewrite (map_nth_seq perm) at 1. rewrite Hl, map_map. reflexivity.
+Qed.
+
+Section MixedRadix.
+  Variables (L dd : nat -> nat).
+  Hypothesis L0 : L 0 = 1.
+  Hypothesis LS : forall a, L (S a) = L a * dd a.
+  Hypothesis Lpos : forall a, 0 < L a.
+
+  Definition digit (a t : nat) : nat := (t / L a) mod dd a.
+
+  Lemma dd_pos a : 0 < dd a.
+  Proof using L0 LS Lpos. pose proof (Lpos (S a)) as H. rewrite LS in H. destruct (dd a); lia. Qed.
+
+  Lemma L_div a k : a <= k -> exists m, L k = L a * m.
+  Proof using L0 LS Lpos.
+    induction 1 as [|k _ [m Hm]]; [exists 1; lia|]. exists (m * dd k). rewrite LS, Hm. ring.
+  Qed.
+
+  Lemma digit_lt a t : digit a t < dd a.
+  Proof using L0 LS Lpos. apply Nat.mod_upper_bound. pose proof (dd_pos a). lia. Qed.
+
+  Lemma digit_shift a t q : digit a (t + L (S a) * q) = digit a t.
+  Proof using L0 LS Lpos.
+    unfold digit. rewrite LS. pose proof (Lpos a). pose proof (dd_pos a).
+    replace (t + L a * dd a * q) with (t + (q * dd a) * L a) by ring.
+    rewrite Nat.div_add by lia. rewrite Nat.mod_add by lia. reflexivity.
+  Qed.
+
+  Lemma digit_shift_k a k t q : a < k -> digit a (t + L k * q) = digit a t.
+  Proof using L0 LS Lpos.
+    intro H. destruct (L_div (S a) k H) as [m Hm]. rewrite Hm.
+    replace (L (S a) * m * q) with (L (S a) * (m * q)) by ring. apply digit_shift.
+  Qed.
+
+  Lemma digit_mod a k t : a < k -> digit a (t mod L k) = digit a t.
+  Proof using L0 LS Lpos.
+    intro H. pose proof (Lpos k). pose proof (Nat.div_mod t (L k) ltac:(lia)) as E.
+    rewrite E at 2. rewrite Nat.add_comm. symmetry. apply digit_shift_k. exact H.
+  Qed.
+
+  Lemma digit_top k t : t < L (S k) -> digit k t = t / L k.
+  Proof using L0 LS Lpos.
+    intro H. unfold digit. apply Nat.mod_small. pose proof (Lpos k).
+    apply Nat.div_lt_upper_bound; [lia|]. rewrite <- LS. exact H.
+  Qed.
+
+  (* every t < L k is the value of its k digits *)
+  Lemma digits_value k : forall t, t < L k -> t = sumf (fun a => digit a t * L a) k.
+  Proof using L0 LS Lpos.
+    induction k as [|k IH]; intros t Ht; cbn [sumf].
+    - rewrite L0 in Ht. lia.
+    - pose proof (Lpos k) as HL. rewrite (digit_top k t Ht).
+      assert (Hm : t mod L k < L k) by (apply Nat.mod_upper_bound; lia).
+      rewrite (sumf_ext _ (fun a => digit a (t mod L k) * L a)) by (intros a Ha; rewrite (digit_mod a k t Ha); reflexivity).
+      rewrite <- (IH _ Hm). pose proof (Nat.div_mod t (L k) ltac:(lia)). lia.
+  Qed.
+
+  Lemma digits_inj k t1 t2 : t1 < L k -> t2 < L k ->
+    (forall a, a < k -> digit a t1 = digit a t2) -> t1 = t2.
+  Proof using L0 LS Lpos.
+    intros H1 H2 He. rewrite (digits_value k t1 H1), (digits_value k t2 H2).
+    apply sumf_ext. intros a Ha. rewrite (He a Ha). reflexivity.
+  Qed.
+
+  (* a numeral with in-range digits e is below L k and has exactly the digits e *)
+  Lemma value_digits (e : nat -> nat) k : (forall b, b < k -> e b < dd b) ->
+    sumf (fun b => e b * L b) k < L k /\
+    forall b, b < k -> digit b (sumf (fun b => e b * L b) k) = e b.
+  Proof using L0 LS Lpos.
+    induction k as [|k IH]; intro He; cbn [sumf].
+    - rewrite L0. split; [lia|]. intros b Hb. lia.
+    - destruct IH as [Hv Hd]; [intros; apply He; lia|].
+      set (v := sumf (fun b => e b * L b) k) in *. pose proof (Lpos k) as HL.
+      pose proof (He k ltac:(lia)) as Hek. split.
+      + rewrite LS. assert ((e k + 1) * L k <= dd k * L k) by (apply Nat.mul_le_mono_r; lia). lia.
+      + intros b Hb. destruct (Nat.eq_dec b k) as [->|Hne].
+        * unfold digit. rewrite Nat.div_add_l by lia. rewrite (Nat.div_small v) by exact Hv.
+          rewrite Nat.add_0_r. apply Nat.mod_small. exact Hek.
+        * replace (e k * L k + v) with (v + L k * e k) by ring.
+          rewrite digit_shift_k by lia. apply Hd. lia.
+  Qed.
+End MixedRadix.
+
+(* ---- strides of a shape ---- *)
+Lemma tlower_0 s : tlower s 0 = 1.
+Proof. rewrite tlower_eq. cbn [firstn]. apply prodn_nil. Qed.
+
+Lemma tlower_S s i : tlower s (S i) = tlower s i * tget s i.
+Proof.
+  rewrite !tlower_eq. unfold tget. generalize (tdims s) as l. intro l. revert i.
+  induction l as [|x l IH]; intro i.
+  - destruct i; cbn [firstn nth]; rewrite prodn_nil; lia.
+  - destruct i as [|i].
+    + cbn [firstn nth]. rewrite prodn_cons, prodn_nil. lia.
+    + change (firstn (S (S i)) (x :: l)) with (x :: firstn (S i) l).
+      change (firstn (S i) (x :: l)) with (x :: firstn i l).
+      change (nth (S i) (x :: l) 1) with (nth i l 1).
+      rewrite !prodn_cons, (IH i). ring.
+Qed.
+
+Lemma tlower_all s k : tdepth s <= k -> tlower s k = tvolume s.
+Proof. intro H. rewrite tlower_eq, tvolume_eq. unfold tdepth in H. rewrite firstn_all2 by exact H. reflexivity. Qed.
+
+Lemma prodn_perm l l' : Permutation l l' -> prodn l = prodn l'.
+Proof.
+  induction 1 as [|x l l' _ IH|x y l|l l' l'' _ IH1 _ IH2]; rewrite ?prodn_cons.
+  - reflexivity.
+  - rewrite IH. reflexivity.
+  - ring.
+  - rewrite IH1. exact IH2.
+Qed.
+
+Lemma tlower_prod s k : tlower s k = prodn (map (tget s) (seq 0 k)).
+Proof.
+  induction k as [|k IH]; [rewrite tlower_0; cbn [seq map]; rewrite prodn_nil; reflexivity|].
+  rewrite seq_S, map_app, prodn_app, tlower_S, <- IH. cbn [map]. rewrite prodn_cons, prodn_nil. cbn [plus]. ring.
+Qed.
+
+(* ---- list update ---- *)
+Lemma nth_upd_nat : forall (l : list nat) p q v, p < length l ->
+  nth q (upd nat l p v) 0 = if q =? p then v else nth q l 0.
+Proof.
+  unfold upd. induction l as [|x l IH]; intros p q v Hp; cbn [length] in Hp; [lia|].
+  destruct p as [|p]; destruct q as [|q]; cbn [firstn skipn app nth Nat.eqb]; try reflexivity.
+  apply IH. lia.
+Qed.
+
+Lemma upd_length_nat (l : list nat) p v : p < length l -> length (upd nat l p v) = length l.
+Proof.
+  intro H. unfold upd. rewrite app_length, firstn_length. cbn [length]. rewrite skipn_length. lia.
+Qed.
+
+(* [f (k-1); ...; f 1; f 0] *)
+Fixpoint down_list (f : nat -> nat) (k : nat) : list nat :=
+  match k with 0 => [] | S k' => f k' :: down_list f k' end.
+
+Lemma down_list_length f k : length (down_list f k) = k.
+Proof. induction k as [|k IH]; cbn [down_list length]; [reflexivity|]. rewrite IH. reflexivity. Qed.
+
+Lemma down_list_nth f : forall k d, d < k -> nth d (down_list f k) 0 = f (k - d - 1).
+Proof.
+  induction k as [|k IH]; intros d Hd; [lia|]. cbn [down_list]. destruct d as [|d]; cbn [nth].
+  - f_equal. lia.
+  - rewrite IH by lia. f_equal.
+Qed.
+
+Lemma list_is_down_list (l : list nat) k : length l = k ->
+  l = down_list (fun a => nth (k - a - 1) l 0) k.
+Proof.
+  intro Hl. apply (nth_ext _ _ 0 0).
+  - rewrite down_list_length. exact Hl.
+  - intros d Hd. rewrite down_list_nth by lia. f_equal. lia.
+Qed.
+
+Lemma map_flat_map {A B C} (f : B -> C) (g : A -> list B) l :
+  map f (flat_map g l) = flat_map (fun x => map f (g x)) l.
+Proof. induction l as [|a l IH]; cbn [flat_map map]; [reflexivity|]. rewrite map_app, IH. reflexivity. Qed.
+
+Section Permute.
+  Variables (sx sy : tshape) (perm : list nat) (nd : nat).
+  Hypothesis Hnd : length perm = nd.
+  Hypothesis Hperm : Permutation perm (seq 0 nd).              (* a permutation of 0..nd-1 *)
+
+  Let pm (b : nat) : nat := nth b perm 0.
+
+  Lemma perm_lt b : b < nd -> pm b < nd.
+  Proof.
+    intro Hb. assert (Hin : In (pm b) perm) by (apply nth_In; lia).
+    apply (Permutation_in _ Hperm) in Hin. apply in_seq in Hin. lia.
+  Qed.
+
+  Lemma perm_inj b1 b2 : b1 < nd -> b2 < nd -> pm b1 = pm b2 -> b1 = b2.
+  Proof.
+    intros H1 H2 E. assert (ND : NoDup perm) by (apply (Permutation_NoDup (Permutation_sym Hperm)); apply seq_NoDup).
+    rewrite (NoDup_nth perm 0) in ND. apply ND; [lia|lia|exact E].
+  Qed.
+
+  Lemma perm_surj a : a < nd -> exists b, b < nd /\ pm b = a.
+  Proof.
+    intro Ha. assert (Hin : In a perm) by (apply (Permutation_in _ (Permutation_sym Hperm)); apply in_seq; lia).
+    destruct (In_nth perm a 0 Hin) as [b [Hb E]]. exists b. split; [lia|exact E].
+  Qed.
+
+  (* the stride vectors the C++ loop computes (stored reversed) *)
+  Lemma strides_loop_spec : forall fuel i xt yt xs ys,
+    i + fuel = nd -> length xs = nd -> length ys = nd ->
+    xt = tlower sx i -> yt = tlower sy i ->
+    (forall i', i' < i -> nth (nd - i' - 1) xs 0 = tlower sx i') ->
+    (forall i', i' < i -> nth (nd - pm i' - 1) ys 0 = tlower sy i') ->
+    let r := strides_loop sx sy perm i nd xt yt xs ys fuel in
+    length (fst r) = nd /\ length (snd r) = nd /\
+    (forall i', i' < nd -> nth (nd - i' - 1) (fst r) 0 = tlower sx i') /\
+    (forall i', i' < nd -> nth (nd - pm i' - 1) (snd r) 0 = tlower sy i').
+  Proof.
+    induction fuel as [|f IH]; intros i xt yt xs ys Hi Hlx Hly Hxt Hyt Hx Hy; cbn [strides_loop].
+    - assert (Ei : i = nd) by lia. subst i. cbv zeta. cbn [fst snd]. auto.
+    - cbv zeta. fold (upd nat xs (nd - i - 1) xt). fold (upd nat ys (nd - nth i perm 0 - 1) yt). fold (pm i).
+      assert (Hib : i < nd) by lia. pose proof (perm_lt i Hib) as Hpi.
+      apply IH.
+      + lia.
+      + rewrite upd_length_nat; lia.
+      + rewrite upd_length_nat; lia.
+      + rewrite tlower_S, Hxt. reflexivity.
+      + rewrite tlower_S, Hyt. reflexivity.
+      + intros i' Hi'. rewrite nth_upd_nat by lia.
+        destruct (Nat.eqb_spec (nd - i' - 1) (nd - i - 1)) as [E|E].
+        * replace i' with i by lia. exact Hxt.
+        * apply Hx. lia.
+      + intros i' Hi'. rewrite nth_upd_nat by lia.
+        assert (Hi'b : i' < nd) by lia. pose proof (perm_lt i' Hi'b) as Hpi'.
+        destruct (Nat.eqb_spec (nd - pm i' - 1) (nd - pm i - 1)) as [E|E].
+        * assert (pm i' = pm i) by lia. assert (i' = i) by (apply perm_inj; assumption).
+          subst i'. exact Hyt.
+        * apply Hy. destruct (Nat.eq_dec i' i) as [->|N]; [congruence|lia].
+  Qed.
+
+  Definition perm_strides : list nat * list nat :=
+    strides_loop sx sy perm 0 nd 1 1 (repeat 0 nd) (repeat 0 nd) nd.
+
+  Lemma perm_strides_spec :
+    fst perm_strides = down_list (tlower sx) nd /\
+    length (snd perm_strides) = nd /\
+    (forall b, b < nd -> nth (nd - pm b - 1) (snd perm_strides) 0 = tlower sy b).
+  Proof.
+    destruct (strides_loop_spec nd 0 1 1 (repeat 0 nd) (repeat 0 nd)) as [H1 [H2 [H3 H4]]];
+      try (rewrite ?repeat_length, ?tlower_0; reflexivity || lia).
+    fold perm_strides in H1, H2, H3, H4. split; [|split; [exact H2|exact H4]].
+    apply (nth_ext _ _ 0 0).
+    - rewrite down_list_length. exact H1.
+    - intros d Hd. rewrite H1 in Hd. rewrite down_list_nth by exact Hd.
+      rewrite <- (H3 (nd - d - 1)) by lia. f_equal. lia.
+  Qed.
+
+  Hypothesis Hwfx : twf sx.
+
+  (* closed form of the inner loop over d: j = sum over x-axes of digit * y-stride *)
+  Lemma permute_index_sum (Ys : nat -> nat) : forall k tmp j, tmp < tlower sx k ->
+    permute_index (down_list (tlower sx) k) (down_list Ys k) tmp j
+    = j + sumf (fun a => digit (tlower sx) (tget sx) a tmp * Ys a) k.
+  Proof.
+    pose proof (fun a => tlower_pos sx a Hwfx) as Lpos.
+    induction k as [|k IH]; intros tmp j Ht; cbn [down_list permute_index sumf]; [lia|].
+    pose proof (Lpos k) as HL.
+    replace (tmp - tmp / tlower sx k * tlower sx k) with (tmp mod tlower sx k)
+      by (rewrite Nat.mod_eq by lia; rewrite (Nat.mul_comm (tlower sx k)); reflexivity).
+    rewrite IH by (apply Nat.mod_upper_bound; lia).
+    rewrite (sumf_ext _ (fun a => digit (tlower sx) (tget sx) a tmp * Ys a)).
+    - rewrite (digit_top (tlower sx) (tget sx) (tlower_0 sx) (tlower_S sx) Lpos k tmp Ht). lia.
+    - intros a Ha. rewrite (digit_mod (tlower sx) (tget sx) (tlower_0 sx) (tlower_S sx) Lpos a k tmp Ha). reflexivity.
+  Qed.
+
+  Hypothesis Hdx : tdepth sx <= nd.                             (* perm.size() >= x.depth() *)
+  Hypothesis Hdy : tdepth sy <= nd.
+  Hypothesis Hdims : forall b, b < nd -> tget sy b = tget sx (nth b perm 0).   (* y.shape[b] = x.shape[perm[b]] *)
+  Hypothesis Hwfy : twf sy.
+
+  (* permuting the axes keeps the volume *)
+  Lemma permute_volume : tvolume sy = tvolume sx.
+  Proof.
+    rewrite <- (tlower_all sy nd Hdy), <- (tlower_all sx nd Hdx), !tlower_prod.
+    rewrite (map_ext_in (tget sy) (fun b => tget sx (nth b perm 0)))
+      by (intros b Hb; apply in_seq in Hb; apply Hdims; lia).
+    rewrite <- (map_map (fun b => nth b perm 0) (tget sx)). rewrite <- Hnd, <- (map_nth_seq perm).
+    apply prodn_perm. apply Permutation_map. rewrite Hnd. exact Hperm.
+  Qed.
+
+  (* the sample-local index map of the kernel *)
+  Definition perm_index (i : nat) : nat := permute_index (fst perm_strides) (snd perm_strides) i 0.
+
+  Notation dgx := (digit (tlower sx) (tget sx)).
+  Notation dgy := (digit (tlower sy) (tget sy)).
+
+  (* coordinate b of the destination = coordinate perm[b] of the source; destination in range *)
+  Theorem perm_index_spec i : i < tvolume sx ->
+    perm_index i < tvolume sy /\ forall b, b < nd -> dgy b (perm_index i) = dgx (pm b) i.
+  Proof.
+    intro Hi. pose proof (fun a => tlower_pos sx a Hwfx) as Lposx.
+    pose proof (fun a => tlower_pos sy a Hwfy) as Lposy.
+    destruct perm_strides_spec as [Hxs [Hyl Hys]]. unfold perm_index.
+    rewrite Hxs. rewrite (list_is_down_list (snd perm_strides) nd Hyl).
+    set (Ys := fun a => nth (nd - a - 1) (snd perm_strides) 0).
+    rewrite permute_index_sum by (rewrite (tlower_all sx nd Hdx); exact Hi).
+    rewrite Nat.add_0_l.
+    rewrite (sumf_reindex perm nd _ Hnd Hperm). fold pm.
+    rewrite (sumf_ext _ (fun b => dgx (pm b) i * tlower sy b))
+      by (intros b Hb; cbv beta; rewrite <- (Hys b Hb); reflexivity).
+    rewrite <- (tlower_all sy nd Hdy).
+    apply (value_digits (tlower sy) (tget sy) (tlower_0 sy) (tlower_S sy) Lposy (fun b => dgx (pm b) i) nd).
+    intros b Hb. rewrite (Hdims b Hb). fold (pm b).
+    apply (digit_lt (tlower sx) (tget sx) (tlower_0 sx) (tlower_S sx) Lposx).
+  Qed.
+
+  Theorem perm_index_inj i1 i2 : i1 < tvolume sx -> i2 < tvolume sx ->
+    perm_index i1 = perm_index i2 -> i1 = i2.
+  Proof.
+    intros H1 H2 E. pose proof (fun a => tlower_pos sx a Hwfx) as Lposx.
+    destruct (perm_index_spec i1 H1) as [_ D1]. destruct (perm_index_spec i2 H2) as [_ D2].
+    rewrite <- (tlower_all sx nd Hdx) in H1, H2.
+    apply (digits_inj (tlower sx) (tget sx) (tlower_0 sx) (tlower_S sx) Lposx nd i1 i2 H1 H2).
+    intros a Ha. destruct (perm_surj a Ha) as [b [Hb <-]].
+    rewrite <- (D1 b Hb), <- (D2 b Hb), E. reflexivity.
+  Qed.
+
+  (* the destination is the ONLY in-range index with these coordinates *)
+  Theorem perm_index_unique i j : i < tvolume sx -> j < tvolume sy ->
+    (forall b, b < nd -> dgy b j = dgx (pm b) i) -> j = perm_index i.
+  Proof.
+    intros Hi Hj Hd. pose proof (fun a => tlower_pos sy a Hwfy) as Lposy.
+    destruct (perm_index_spec i Hi) as [Hj' D].
+    rewrite <- (tlower_all sy nd Hdy) in Hj, Hj'.
+    apply (digits_inj (tlower sy) (tget sy) (tlower_0 sy) (tlower_S sy) Lposy nd j _ Hj Hj').
+    intros b Hb. rewrite (Hd b Hb), (D b Hb). reflexivity.
+  Qed.
+
+  Hypothesis Hbat : tbatch sy = tbatch sx.
+
+  Lemma permute_map_eq :
+    permute_map sx sy perm =
+    flat_map2 (tbatch sx) (fun k =>
+      map (fun i => (k * tvolume sx + i, k * tvolume sx + perm_index i)) (range (tvolume sx))).
+  Proof.
+    unfold permute_map, perm_index, perm_strides. rewrite Hnd.
+    destruct (strides_loop sx sy perm 0 nd 1 1 (repeat 0 nd) (repeat 0 nd) nd) as [xs ys].
+    reflexivity.
+  Qed.
+
+  Lemma permute_map_In i j :
+    In (i, j) (permute_map sx sy perm) <->
+    exists k i0, k < tbatch sx /\ i0 < tvolume sx /\
+      i = k * tvolume sx + i0 /\ j = k * tvolume sx + perm_index i0.
+  Proof.
+    rewrite permute_map_eq, In_flat_map2. split.
+    - intros [k [Hk H]]. apply In_map_range in H. destruct H as [i0 [Hi0 E]]. injection E as -> ->.
+      exists k, i0. auto.
+    - intros [k [i0 [Hk [Hi0 [-> ->]]]]]. exists k. split; [exact Hk|]. apply In_map_range. exists i0. auto.
+  Qed.
+
+  Lemma permute_map_length : length (permute_map sx sy perm) = tbatch sx * tvolume sx.
+  Proof.
+    rewrite permute_map_eq. apply length_flat_map2_const. intro k.
+    unfold range. rewrite map_length, seq_length. reflexivity.
+  Qed.
+
+  (* y[b; c_0..c_{nd-1}] = x[b; coordinates with x-coordinate perm[a] = c_a] *)
+  Theorem permute_fw_spec d k s :
+    In (d, (k, s)) (permute_fw sx sy perm) <->
+    exists b i j, b < tbatch sx /\ i < tvolume sx /\ j < tvolume sy /\ k = 0 /\
+      s = b * tvolume sx + i /\ d = b * tvolume sy + j /\
+      forall a, a < nd -> dgy a j = dgx (pm a) i.
+  Proof.
+    unfold permute_fw. rewrite in_map_iff. split.
+    - intros [[i j] [E Hin]]. cbn [fst snd] in E. injection E as <- <- <-.
+      apply permute_map_In in Hin. destruct Hin as [b [i0 [Hb [Hi0 [-> ->]]]]].
+      destruct (perm_index_spec i0 Hi0) as [Hj D].
+      exists b, i0, (perm_index i0). rewrite permute_volume in *. auto 10.
+    - intros [b [i [j [Hb [Hi [Hj [-> [-> [-> D]]]]]]]]].
+      exists (b * tvolume sx + i, b * tvolume sx + j). cbn [fst snd]. rewrite permute_volume. split; [reflexivity|].
+      apply permute_map_In. exists b, i. rewrite (perm_index_unique i j Hi Hj D). auto.
+  Qed.
+
+  (* no read outside x *)
+  Theorem permute_fw_in_bounds : mov_in_bounds (permute_fw sx sy perm) [tsize sx].
+  Proof.
+    unfold mov_in_bounds. apply Forall_forall. intros [d [k s]] Hin. cbn [fst snd].
+    apply permute_fw_spec in Hin. destruct Hin as [b [i [j [Hb [Hi [_ [-> [-> _]]]]]]]].
+    cbn [nth]. unfold tsize.
+    assert ((b + 1) * tvolume sx <= tbatch sx * tvolume sx) by (apply Nat.mul_le_mono_r; lia). lia.
+  Qed.
+
+  Lemma batch_offset_inj V k1 j1 k2 j2 : j1 < V -> j2 < V -> k1 * V + j1 = k2 * V + j2 -> k1 = k2 /\ j1 = j2.
+  Proof.
+    intros H1 H2 E.
+    assert (k1 = k2).
+    { assert (Q : (k1 * V + j1) / V = (k2 * V + j2) / V) by (rewrite E; reflexivity).
+      rewrite !Nat.div_add_l, !Nat.div_small in Q by lia. lia. }
+    subst k2. split; [reflexivity|lia].
+  Qed.
+
+  (* every element of y is written exactly once *)
+  Theorem permute_fw_covers : covers (permute_fw sx sy perm) (tsize sy).
+  Proof.
+    unfold covers. apply perm_seq_of_inj.
+    - unfold permute_fw. rewrite !map_length, permute_map_length. unfold tsize. rewrite Hbat, permute_volume. reflexivity.
+    - unfold permute_fw. rewrite map_map. cbn [fst]. rewrite permute_map_eq. unfold flat_map2.
+      rewrite map_flat_map. apply NoDup_flat_map.
+      + apply seq_NoDup.
+      + intros k _. rewrite map_map. cbn [snd]. apply NoDup_map_inj; [apply seq_NoDup|].
+        intros i1 i2 H1 H2 E. apply in_seq in H1, H2. apply perm_index_inj; lia.
+      + intros k1 k2 x _ _ H1 H2. rewrite map_map in H1, H2. cbn [snd] in H1, H2.
+        apply In_map_range in H1, H2. destruct H1 as [i1 [Hi1 E1]]. destruct H2 as [i2 [Hi2 E2]].
+        rewrite E1 in E2. destruct (perm_index_spec i1 Hi1) as [B1 _]. destruct (perm_index_spec i2 Hi2) as [B2 _].
+        rewrite permute_volume in B1, B2. apply batch_offset_inj in E2; tauto.
+    - intros d Hd. apply in_map_iff in Hd. destruct Hd as [[d' [k s]] [E Hin]]. cbn [fst] in E. subst d'.
+      apply permute_fw_spec in Hin. destruct Hin as [b [i [j [Hb [Hi [Hj [_ [_ [-> _]]]]]]]]].
+      unfold tsize. rewrite Hbat.
+      assert ((b + 1) * tvolume sy <= tbatch sx * tvolume sy) by (apply Nat.mul_le_mono_r; lia). lia.
+  Qed.
+
+  (* every element of x is read exactly once *)
+  Theorem permute_fw_srcs_cover : srcs_cover (permute_fw sx sy perm) (tsize sx).
+  Proof.
+    unfold srcs_cover, permute_fw. rewrite map_map. cbn [fst snd]. rewrite permute_map_eq.
+    pose proof (seq_nest (tbatch sx) (tvolume sx) (fun k i => k * tvolume sx + perm_index i)) as H.
+    unfold tsize. exact (eq_ind_r (fun l => Permutation l _) (Permutation_refl _) H).
+  Qed.
+
+  (* permute_dims_bw: pgx[i] += pgy[j] over the same (i, j): exactly the transposed forward program *)
+  Theorem permute_bw_transposed : permute_bw sx sy perm = mov_transposed (permute_fw sx sy perm).
+  Proof.
+    unfold permute_bw, mov_transposed, permute_fw. rewrite map_map. cbn [fst snd].
+    rewrite <- (map_id (permute_map sx sy perm)) at 1. apply map_ext. intros [i j]. reflexivity.
+  Qed.
+
+  Theorem permute_bw_in_bounds : acc_in_bounds (permute_bw sx sy perm) (tsize sx) (tsize sy).
+  Proof.
+    unfold acc_in_bounds, permute_bw. apply Forall_forall. intros [i j] Hin. cbn [fst snd].
+    apply permute_map_In in Hin. destruct Hin as [k [i0 [Hk [Hi0 [-> ->]]]]].
+    destruct (perm_index_spec i0 Hi0) as [Hj _]. unfold tsize. rewrite Hbat. rewrite permute_volume in *.
+    assert ((k + 1) * tvolume sx <= tbatch sx * tvolume sx) by (apply Nat.mul_le_mono_r; lia). lia.
+  Qed.
+End Permute.
